@@ -31,7 +31,7 @@ ASSUMPTIONS = [
 PROBES = ["passes_150s", "passes_days", "reboot", "clock_step", "slow_agent", "recovered_after_discontinuity",
           "failed_right_after_discontinuity", "disco_foreign_msgid", "disco_no_bindings", "disco_wrong_pdu", "level_auth",
           "level_priv", "configured_context_engine", "drift_within_window", "drift_beyond_window", "slow_agent_clock",
-          "fast_agent_clock"]
+          "fast_agent_clock", "discovery_without_timing"]
 shrink_lists = [("steps",)]
 BASE = (1, 3, 6, 1, 2, 1, 7)
 DELTAS = [1, 30, 149, 150, 151, 600, 3600, 86400, 30 * 86400]
@@ -70,7 +70,10 @@ def plan_for(tier: str, seed: int, i: int) -> dict:
             "boots": rng.choice([0, 1, 7, 2**20]), "time0": rng.choice([0, 100, 149, 10**6, 2**31 - 10**8]),
             "engine_cfg": gen.gen_bytes(rng, 12) if rng.random() < 0.2 else b"", "ctx_echo": rng.random() < 0.3, "ctx_other": rng.random() < 0.15,
             # clock drift: the agent's engine clock runs slower or faster than the client's monotonic clock
-            "rate": rng.choice([1.0, 1.0, 1.0, 1.0, 0.5, 0.75, 1.25, 1.5])}
+            "rate": rng.choice([1.0, 1.0, 1.0, 1.0, 0.5, 0.75, 1.25, 1.5]),
+            # RFC 3414 section 4: the discovery Report need not disclose boots/time (0/0); an authenticated user then
+            # learns them from the notInTimeWindow Report that answers its first request
+            "disco_hides_timing": rng_for(seed, ID, tier + ":hide", i).random() < 0.12}
 
 
 def valid(plan: dict) -> bool:
@@ -92,6 +95,8 @@ def simplify(plan: dict):
         p = dict(plan); p["time0"] = 100; yield p
     if plan.get("rate", 1.0) != 1.0:
         p = dict(plan); p["rate"] = 1.0; yield p
+    if plan.get("disco_hides_timing"):
+        p = dict(plan); p["disco_hides_timing"] = False; yield p
     if plan["engine_cfg"]:
         p = dict(plan); p["engine_cfg"] = b""; yield p
 
@@ -112,6 +117,8 @@ def execute(plan: dict) -> dict:
     fault = plan.get("disco_fault")
 
     def hook_v3(req: dict, f: dict) -> dict:
+        if req.get("discovery") and plan.get("disco_hides_timing") and not fault:
+            return dict(f, boots=0, time=0)
         if req.get("discovery") and fault:
             if fault == "foreign_msgid":
                 return dict(f, msg_id=(f["msg_id"] + 17) % (2**31))
@@ -131,8 +138,11 @@ def execute(plan: dict) -> dict:
     probes["level_priv"] = int(level == 3)
     probes["configured_context_engine"] = int(bool(plan["engine_cfg"]))
     probes["slow_agent_clock"] = int(rate < 1.0)
+    probes["discovery_without_timing"] = int(bool(plan.get("disco_hides_timing")) and not fault)
     probes["fast_agent_clock"] = int(rate > 1.0)
-    pending = False          # a discontinuity happened and the client has not yet heard from the agent since
+    # a discontinuity happened (or the agent did not disclose its clock at discovery) and the client has not yet
+    # received an authenticated message from the agent since
+    pending = bool(plan.get("disco_hides_timing")) and level > 0 and not fault
     last_heard = 0.0         # virtual instant of the last message the client received from the agent
     nreq = 0
     time_between = False
